@@ -59,7 +59,7 @@ def required(tier):
 
 
 def make_instance(rng, tier):
-    ploidy = int(rng.choice([2, 3, 4] if tier == "quick" else [2, 3, 4, 5]))
+    ploidy = int(rng.choice([1, 2, 2, 3, 3, 4, 4] if tier == "quick" else [1, 2, 2, 3, 3, 4, 4, 5]))
     n_pos = int(rng.integers(1, 6))
     n_haps = int(rng.integers(2, 7 if ploidy <= 3 else 6))
     if rng.random() < 0.12:
